@@ -6,7 +6,8 @@
 //!             EXECUTE (2 pages), BATCH unprepared / prepared / mixed; the same through statements the node marks as
 //!             LWT in its PREPARED answer (QUERY with values, EXECUTE, execute_single_page x2, execute_iter, BATCH);
 //!             EXECUTE of a statement the node has evicted (UNPREPARED -> PREPARE -> re-sent EXECUTE: both frames)}
-//!             x statement timestamp {not set, 9 boundary values}:
+//!             and the CachingSession entry points (execute_unpaged, execute_iter, batch unprepared / mixed / prepared,
+//!             prepare_batch + Session::batch) x statement timestamp {not set, 9 boundary values}:
 //!             the frame(s) the node received carry the explicit value unchanged; without one, a timestamp is present
 //!             iff a generator is configured, is one the recording generator handed out / exceeds every earlier value of
 //!             the monotonic generator in this (sequential) caller (for LWT-marked statements the presence of a
@@ -29,7 +30,7 @@ use std::sync::Arc;
 use vcore::Report;
 
 const GENS: [&str; 4] = ["none", "monotonic", "simple", "recording"];
-const KINDS: [&str; 13] = [
+const KINDS: [&str; 19] = [
     "query",
     "query-values",
     "execute",
@@ -45,6 +46,14 @@ const KINDS: [&str; 13] = [
     "batch-prepared-lwt",
     // the node has forgotten the statement: EXECUTE -> UNPREPARED -> PREPARE -> the re-sent EXECUTE
     "execute-unprepared-resend",
+    // through a CachingSession over the same Session (unprepared statements are prepared through its cache; a batch is
+    // rebuilt by prepare_batch when it contains an unprepared statement)
+    "caching-execute",
+    "caching-execute-paged",
+    "caching-batch-unprepared",
+    "caching-batch-mixed",
+    "caching-batch-prepared",
+    "caching-prepare-batch-mixed",
 ];
 /// ScyllaDB's LWT_OPTIMIZATION_META_BIT_MASK
 const LWT_MASK: u32 = 0x8000_0000;
@@ -80,6 +89,7 @@ struct Env {
     lwt_insert: PreparedStatement,
     /// LWT-marked and answering with 2 rows in pages (as a conditional statement's result set does)
     lwt_update: PreparedStatement,
+    caching: scylla::client::caching_session::CachingSession,
 }
 
 async fn setup(generator: usize, nodes: usize) -> Env {
@@ -135,7 +145,9 @@ async fn setup(generator: usize, nodes: usize) -> Env {
     if !lwt_insert.is_confirmed_lwt() || !lwt_update.is_confirmed_lwt() || insert.is_confirmed_lwt() || select.is_confirmed_lwt() {
         vcore::machinery_error("the LWT mark of the PREPARED answers did not reach PreparedStatement::is_confirmed_lwt as scripted");
     }
-    Env { cluster, session: Arc::new(session), recording, insert, select, lwt_insert, lwt_update }
+    let session = Arc::new(session);
+    let caching = scylla::client::caching_session::CachingSessionBuilder::new_shared(session.clone()).max_capacity(2).build();
+    Env { cluster, session, recording, insert, select, lwt_insert, lwt_update, caching }
 }
 
 fn request_timestamp(e: &LogEntry) -> Option<Option<i64>> {
@@ -159,6 +171,48 @@ async fn drive(env: &Env, c: &Case) -> Result<(), String> {
             let mut st = Statement::new(P_INSERT);
             st.set_timestamp(ts);
             s.query_unpaged(st, (5i32, "five")).await.map(|_| ()).map_err(|e| e.to_string())
+        }
+        "caching-execute" => {
+            let mut st = Statement::new(P_INSERT);
+            st.set_timestamp(ts);
+            env.caching.execute_unpaged(st, (9i32, "nine")).await.map(|_| ()).map_err(|e| e.to_string())
+        }
+        "caching-execute-paged" => {
+            use futures::StreamExt;
+            let mut st = Statement::new(P_SELECT);
+            st.set_page_size(1);
+            st.set_timestamp(ts);
+            let pager = env.caching.execute_iter(st, (1i32,)).await.map_err(|e| e.to_string())?;
+            let mut rows = pager.rows_stream::<(i32, String)>().map_err(|e| e.to_string())?;
+            let mut n = 0;
+            while let Some(row) = rows.next().await {
+                row.map_err(|e| e.to_string())?;
+                n += 1;
+            }
+            if n == 2 { Ok(()) } else { Err(format!("{n} rows instead of 2")) }
+        }
+        k @ ("caching-batch-unprepared" | "caching-batch-mixed" | "caching-batch-prepared" | "caching-prepare-batch-mixed") => {
+            let mut b = Batch::new(BatchType::Logged);
+            let mut values: Vec<Box<dyn SerializeRow + Send + Sync>> = Vec::new();
+            if k != "caching-batch-prepared" {
+                b.append_statement(Statement::new(Q_INSERT));
+                values.push(Box::new(()));
+            }
+            if k != "caching-batch-unprepared" {
+                b.append_statement(env.insert.clone());
+                values.push(Box::new((7i32, "seven")));
+            }
+            if k.ends_with("mixed") {
+                b.append_statement(Statement::new(P_INSERT));
+                values.push(Box::new((8i32, "eight")));
+            }
+            b.set_timestamp(ts);
+            if k == "caching-prepare-batch-mixed" {
+                let prepared = env.caching.prepare_batch(&b).await.map_err(|e| e.to_string())?;
+                s.batch(&prepared, values).await.map(|_| ()).map_err(|e| e.to_string())
+            } else {
+                env.caching.batch(&b, values).await.map(|_| ()).map_err(|e| e.to_string())
+            }
         }
         "query-values-lwt" => {
             let mut st = Statement::new(L_INSERT);
